@@ -202,7 +202,7 @@ class Ref:
             if m is not None:
                 return m()
             # neither text, number nor __html__: offered to the translation function (settings in force)
-            conv = self.T(v) if self.translate is not None else v
+            conv = self.T(v) if (self.translate is not None and self.options.get('__recording_translate__')) else v
             v = str(v) if conv is v else conv
         elif hasattr(v, '__html__'):
             return v.__html__()
